@@ -103,7 +103,29 @@ def ppmd_selfcheck(case):
             out += r
     except Exception as ex:  # noqa
         return f"pyppmd decoder rejects its own encoder's output: {ex!r}"
-    return "ok" if out == data else "pyppmd decodes its own output to different bytes"
+    if out != data:
+        return "pyppmd decodes its own output to different bytes"
+    # the same library driven the way a streaming caller drives it: input in blocks, output limited to what the current member
+    # still needs (py7zr: one I/O block per call, max_length = min(remaining, chunk limit)); a failure here is the library's as well
+    e = pyppmd.Ppmd7Encoder(order, mem)
+    comp = b"".join(e.encode(data[k:k + block]) for k in range(0, len(data), block)) + e.flush()
+    d = pyppmd.Ppmd7Decoder(order, mem)
+    out2, pos = bytearray(), 0
+    try:
+        for want in [len(x) for x in datas]:
+            got, idle = 0, 0
+            while got < want and idle < 64:
+                chunk = comp[pos:pos + block]
+                pos += len(chunk)
+                if len(chunk) == 0 and d.needs_input:
+                    chunk = b"\0"
+                r = d.decode(chunk, min(want - got, limit))
+                got += len(r)
+                out2 += r
+                idle = 0 if r else idle + 1
+    except Exception as ex:  # noqa
+        return f"pyppmd alone, fed in blocks of {block} with bounded output: {ex!r}"
+    return "ok" if bytes(out2) == data else "pyppmd alone, fed in blocks with bounded output, decodes to different bytes"
 
 
 def run_case(case):
